@@ -8,6 +8,10 @@ CLAIMED = {
         text="generated operand tuples (all pairs of a boundary lattice + seeded random integers to 4000 bits and random ratios) x 48 operations x 3 evaluation routes (inlined opcode, apply, constant-folded literals) compared with Python int/Fraction incl. canonical representation and operand immutability; exploration: no mismatch on the generated cases, not a proof",
         note="trusted: Python int/Fraction; decimal reader/writer of exact numbers is cross-checked through the operand echo; (lcm 0 0) excluded (no agreed value)",
         technique="property-based testing against a reference model (Python int/Fraction): boundary-lattice enumeration + seeded random generation"),
+    "C16": dict(
+        text="(A) Hypothesis histories over 8 root slots and 8 ephemeron slots: create / drop / copy objects, make ephemerons whose key and value components are reached through roots or through other ephemerons' values (incl. a value that refers to its own key), read a key back into the roots, drop ephemerons, allocate garbage, collect; after every step the program prints (broken? key value) of every ephemeron and an adaptive reachability model in Python (roots + values of ephemerons with a live key, to a fixpoint) decides per ephemeron: must be intact with its original key and value (key strongly reachable at every step since creation), must be broken with key and value gone (an explicit full collection ran while the key was unreachable), or either (consistency only); the histories also run under forced collection schedules on the ASan build with the poisoned heap and the heap checker extended to weak and ephemeron-value slots, so a value freed under a live key is a report; (B) port histories (text/binary/fileno-backed input ports, output ports, aliases, close, drop, collect, read): after every explicit collection the number of open descriptors of the process equals base + reachable unclosed ports and every reachable unclosed port still reads the next character of its file; (C) with RLIMIT_NOFILE=40, 400 ports opened through each of the four R7RS openers and dropped unclosed must all open; exploration only",
+        note="trusted: the reachability model; (verif-gc) of the driver is one sexp_gc; the descriptor count comes from /proc/self/fd of the forked child; a fileno object's descriptor is owned by its open ports (closing the last port closes it, as in fdopen/fclose); sockets, pipes and process ports are not exercised",
+        technique="stateful property-based testing (Hypothesis) against a reachability model with injected collection schedules; resource-count invariant; sanitizer + heap-checker oracle"),
     "C17": dict(
         text="every (srfi 151) export (and srfi 33 aliases) on lattice pairs, lattice x shift counts and seeded random operands (both signs, word-boundary lengths) compared with Python unbounded two's-complement integers; exploration only",
         note="trusted: Python integers; zero-width bit-field-rotate excluded (divides by zero in the SRFI's own reference code)",
